@@ -127,6 +127,75 @@ def id_truthiness_sites(db, modules=None):
     return truthy, nlook
 
 
+def _add_symbols_effects(f):
+    """(verdict, details) for TraceSymbolTable.add_symbols: inside the loop over the given symbols, a symbol that is NOT yet in the index gets
+    id = the table's length BEFORE it is appended, is appended once and indexed once; a symbol already present causes no effect.
+    Local aliases of the two containers and the guard forms `if s not in index: ...` / `if s in index: continue` are recognised."""
+    alias = {}
+    for t, v, s_ in H.assignments(f, nested=False):
+        if isinstance(t, ast.Name) and H.is_self_attr(v) and v.attr in ("sym_table", "sym_index"):
+            alias[t.id] = v.attr
+
+    def which(e):
+        if H.is_self_attr(e) and e.attr in ("sym_table", "sym_index"):
+            return e.attr
+        if isinstance(e, ast.Name) and e.id in alias:
+            return alias[e.id]
+        return None
+    loops = [n for n in f.body if isinstance(n, ast.For)]
+    if len(loops) != 1 or not isinstance(loops[0].target, ast.Name):
+        return None, {"loops": len(loops)}
+    lp = loops[0]
+    v = lp.target.id
+    body = list(lp.body)
+    det = {"body": [" ".join(ast.unparse(s_).split())[:80] for s_ in body]}
+
+    def member_test(t):
+        """+1: `v not in INDEX`, -1: `v in INDEX`, 0: something else"""
+        if isinstance(t, ast.UnaryOp) and isinstance(t.op, ast.Not):
+            return -member_test(t.operand)
+        if isinstance(t, ast.Compare) and len(t.ops) == 1 and H.name_id(t.left) == v and which(t.comparators[0]) == "sym_index":
+            return 1 if isinstance(t.ops[0], ast.NotIn) else -1 if isinstance(t.ops[0], ast.In) else 0
+        return 0
+    eff = None
+    if len(body) == 1 and isinstance(body[0], ast.If) and not body[0].orelse and member_test(body[0].test) == 1:
+        eff = body[0].body
+    elif body and isinstance(body[0], ast.If) and not body[0].orelse and member_test(body[0].test) == -1 and len(body[0].body) == 1 and isinstance(body[0].body[0], ast.Continue):
+        eff = body[1:]
+    elif len(body) == 1 and isinstance(body[0], ast.If) and member_test(body[0].test) == -1 and len(body[0].body) == 1 and isinstance(body[0].body[0], (ast.Pass, ast.Continue)) and body[0].orelse:
+        eff = body[0].orelse
+    if eff is None:
+        guarded = any(isinstance(s_, ast.If) and member_test(s_.test) != 0 for s_ in body)
+        return (None if guarded else False), det          # no membership guard at all: existing symbols would be renumbered
+    # effects in order
+    appended, stored, idvar, bad = 0, 0, None, []
+    for s_ in eff:
+        if isinstance(s_, ast.Expr) and isinstance(s_.value, ast.Constant):
+            continue
+        m_len = isinstance(s_, ast.Assign) and len(s_.targets) == 1 and isinstance(s_.targets[0], ast.Name) and isinstance(s_.value, ast.Call) and H.name_id(s_.value.func) == "len" \
+            and len(s_.value.args) == 1 and which(s_.value.args[0]) == "sym_table"
+        if m_len and appended == 0:
+            idvar = s_.targets[0].id
+            continue
+        if isinstance(s_, ast.Expr) and isinstance(s_.value, ast.Call) and isinstance(s_.value.func, ast.Attribute) and s_.value.func.attr == "append" and which(s_.value.func.value) == "sym_table" \
+                and len(s_.value.args) == 1 and H.name_id(s_.value.args[0]) == v:
+            appended += 1
+            continue
+        if isinstance(s_, ast.Assign) and len(s_.targets) == 1 and isinstance(s_.targets[0], ast.Subscript) and which(s_.targets[0].value) == "sym_index" and H.name_id(s_.targets[0].slice) == v:
+            val = s_.value
+            pre = isinstance(val, ast.Call) and H.name_id(val.func) == "len" and len(val.args) == 1 and which(val.args[0]) == "sym_table" and appended == 0
+            post = appended == 1 and H.match("len($$t) - 1", val) is not None and which(val.left.args[0]) == "sym_table"
+            byvar = isinstance(val, ast.Name) and idvar is not None and val.id == idvar
+            if pre or post or byvar:
+                stored += 1
+            else:
+                bad.append("id is not the table length before the append: " + ast.unparse(s_)[:70])
+            continue
+        bad.append(" ".join(ast.unparse(s_).split())[:70])
+    det["effects"] = {"appends": appended, "index stores": stored, "other": bad}
+    return (appended == 1 and stored == 1 and not bad), det
+
+
 def run(db, chk) -> None:
     st = db.mod(ST)
     # ---------------------------------------------------------------- R1 who may write
@@ -142,16 +211,7 @@ def run(db, chk) -> None:
     # structure of add_symbols
     f = st.func("TraceSymbolTable.add_symbols")
     where = st.loc(f)
-    loops = [n for n in f.body if isinstance(n, ast.For)]
-    ok = False
-    det = {}
-    if len(loops) == 1 and len(loops[0].body) == 1 and isinstance(loops[0].body[0], ast.If):
-        lp, iff = loops[0], loops[0].body[0]
-        v = H.name_id(lp.target)
-        det = {"guard": ast.unparse(iff.test), "body": [ast.unparse(s) for s in iff.body]}
-        g = H.match(f"{v} not in self.sym_index", iff.test)
-        r = H.match_seq(["$i = len(self.sym_table)", f"self.sym_table.append({v})", f"self.sym_index[{v}] = $i"], iff.body) if g is not None else None
-        ok = r is not None and not iff.orelse and len(iff.body) == 3
+    ok, det = _add_symbols_effects(f)
     chk.ob("C11.R1-append-only", "add_symbols: for each symbol not yet in sym_index: id = len(sym_table) taken BEFORE the append, then append and index it - nothing else", ok, where, found=det,
            accepted={"guard": "s not in self.sym_index", "body": ["idx=len(self.sym_table)", "self.sym_table.append(s)", "self.sym_index[s]=idx"]},
            why="taking the id after the append, or storing outside the guard, breaks the bijection or renumbers existing symbols")
@@ -161,7 +221,12 @@ def run(db, chk) -> None:
     chk.ob("C11.R1-append-only", "clone copies both containers (no sharing with the source table)", okcl,
            st.loc(cl), found=[ast.unparse(s) for s in cl.body if isinstance(s, ast.Assign)], accepted=["sym_table.copy()", "sym_index.copy()"])
     cr = st.func("TraceSymbolTable.create_from_symbol_id_map")
-    okcr = bool(H.find_match("$t.sym_index.update({$s: $i for $i, $s in enumerate($t.sym_table)})", cr)) or bool(H.find_match("$t.sym_index = {$s: $i for $i, $s in enumerate($t.sym_table)}", cr))
+    okcr = bool(H.find_match("$t.sym_index.update({$s: $i for $i, $s in enumerate($t.sym_table)})", cr)) or bool(H.find_match("$t.sym_index = {$s: $i for $i, $s in enumerate($t.sym_table)}", cr)) or \
+        any(H.match("$t.sym_index[$s] = $i", st_) is not None and len(lp_.body) == 1 for lp_, b_ in H.find_match("for $i, $s in enumerate($t.sym_table): pass", cr) for st_ in lp_.body) or \
+        any(isinstance(lp_, ast.For) and H.match("enumerate($t.sym_table)", lp_.iter) is not None and isinstance(lp_.target, ast.Tuple) and len(lp_.body) == 1 and
+            H.match(f"$t.sym_index[{H.name_id(lp_.target.elts[1])}] = {H.name_id(lp_.target.elts[0])}", lp_.body[0]) is not None for lp_ in ast.walk(cr))
+    if not okcr and not any("sym_index" in ast.unparse(s_) for s_ in cr.body):
+        okcr = None
     chk.ob("C11.R1-append-only", "create_from_symbol_id_map derives sym_index from an enumeration of the sym_table it built", okcr, st.loc(cr),
            found=[ast.unparse(s)[:90] for s in cr.body if "sym_index" in ast.unparse(s)], accepted="tst.sym_index.update({s: i for i, s in enumerate(tst.sym_table)})")
     chk.floor("C11.R1-append-only", 8)
